@@ -59,11 +59,18 @@ class C13(Prop):
                   "proved to keep only the elements (refuted for order). Tied to /repo by running the real filter chain "
                   "and the real DefaultScheduler (fake connector, one slot per location, blockers released one at a time) "
                   "and the model on the same cases; oracle from the property text on the real observations.")
-    LEVEL_NOTE = ("Trusted: Coq kernel + vm_compute; hand-written model Filter/Model.v tied to the code only by the "
-                  "correspondence run. The attempt loop is modelled as passes over a FIFO of tasks with the set of hosting "
-                  "targets constant during a pass: asyncio's FIFO lock/condition hand-over and the default FIFO ready queue "
-                  "are assumed, not proved (other interleavings are not explored); hardware/slot accounting (_is_valid) is "
-                  "the abstract predicate `host`. str() of a non-string input value is computed by CPython. No axioms.")
+    LEVEL_NOTE = ("Scheduling assumption the attempt-loop theorems (C13_first*, C13_schedule) rest on: the per-target tasks of one "
+                  "schedule() call take the scheduler's lock in creation (= declared) order and asyncio's Lock/Condition hand "
+                  "the lock over first-come-first-served; the model IS that discipline (a FIFO of tasks, `host` constant "
+                  "during a pass), it is not derived from asyncio. The sched/sseq correspondence exercises exactly this "
+                  "assumption on the real DefaultScheduler under asyncio's default loop: the fake connectors' "
+                  "get_available_locations take a per-location number of event-loop turns (earlier-declared targets slower in "
+                  "half of the cases), so any code path that lets the order in which connectors answer decide who takes the "
+                  "lock first is a mismatch and an oracle failure. Not covered: arbitrary permutations of the ready queue "
+                  "(on the unchanged tree the task start order then decides the placement; the property quantifies over "
+                  "configurations and inputs, not schedules). Hardware/slot accounting (_is_valid) is the abstract predicate "
+                  "`host`. str() of a non-string input value is computed by CPython. Trusted: Coq kernel + vm_compute; the "
+                  "hand-written model Filter/Model.v tied to the code only by the correspondence run. No axioms.")
     TECHNIQUE = "Coq proof (induction over target/rule/pass lists) + vm_compute correspondence against the real filter and scheduler"
     RULE = ("1..4 declared targets over deployments d0..d3 and services None/a/b (duplicates allowed), chains of 0..3 matching "
             "filters with 1..3 rules of 0..3 predicates (biased to match so that several targets survive; duplicate ports, "
@@ -73,7 +80,8 @@ class C13(Prop):
     TRUSTED = ("model: Filter/Model.v (MatchingRule.eval, MatchingBindingFilter.__init__/get_targets, the filter loop of "
                "DefaultScheduler.schedule, the FIFO attempt loop of schedule/_process_target) is hand-written",
                "asyncio Lock/Condition FIFO hand-over and FIFO ready queue; CPython dict order, str(), any()")
-    ASSUMPTIONS = ("tasks of one schedule() call run under asyncio's default FIFO scheduling",
+    ASSUMPTIONS = ("tasks of one schedule() call take the scheduler lock in creation order under asyncio's default FIFO loop and "
+                   "Lock/Condition hand-over (exercised with connector latencies, not proved)",
                    "the set of targets able to host is constant during one pass over the waiting tasks",
                    "shuffle filters are excluded (property text: shuffle-free chains)")
 
